@@ -379,7 +379,7 @@ func vBuildNode(spec vNodeSpec) *vNode {
 	}
 	r.followers = make(map[string]*follower)
 	for id := range r.configuration.Members {
-		r.followers[id] = new(follower)
+		r.followers[id] = &follower{nextIndex: last + 1} // N7: matchIndex < nextIndex <= last+1
 	}
 	if spec.snap && base > 0 {
 		vTag(name+".compacted", "true")
